@@ -223,6 +223,8 @@ type c11Amp struct {
 	fe        int
 	rm        string
 	re        int
+	fp, rp    string // forward_primer / reverse_primer as found in the annotation map ("?" when not a string)
+	others    string // the remaining annotations, sorted: hexname=i<int> / hexname=s<hex> joined by ";" ("-" = none)
 	// oracle only
 	lo, hi int    // first / last+1 position of the template the record depends on (sites + window), linear templates
 	over   bool   // circular: the requested window (sites + flanks) is longer than the circle
@@ -382,8 +384,82 @@ func c11RcAny(s []byte) ([]byte, bool) {
 	return out, all
 }
 
+// the annotations the harness gives template number k (the Lean driver knows the same convention, `tplAnnot`): none
+// (k mod 3 = 2), a tag (k mod 3 = 0), or a tag, a note and three annotations named like keys _Pcr writes (k mod 3 = 1:
+// they must be overwritten)
+func c11SetTplAnnot(s *obiseq.BioSequence, k int) {
+	switch k % 3 {
+	case 0:
+		s.SetAttribute("c11tag", k)
+	case 1:
+		s.SetAttribute("c11tag", k)
+		s.SetAttribute("direction", "template")
+		s.SetAttribute("forward_error", -7)
+		s.SetAttribute("reverse_primer", "NNN")
+		s.SetAttribute("zz_note", "t"+strconv.Itoa(k))
+	}
+}
+
+var c11PcrKeys = map[string]bool{"forward_primer": true, "forward_match": true, "forward_error": true, "reverse_primer": true,
+	"reverse_match": true, "reverse_error": true, "direction": true}
+
+// reads the fields of the result line from the annotation map of an amplicon
+func c11ReadAnnot(s *obiseq.BioSequence, a *c11Amp) {
+	str := func(k string) string {
+		v, ok := s.GetAttribute(k)
+		if x, isStr := v.(string); ok && isStr {
+			return x
+		}
+		return "?"
+	}
+	a.dir = '?'
+	switch str("direction") {
+	case "forward":
+		a.dir = 'f'
+	case "reverse":
+		a.dir = 'r'
+	}
+	a.fm, a.rm, a.fp, a.rp = str("forward_match"), str("reverse_match"), str("forward_primer"), str("reverse_primer")
+	a.fe, a.re = -999, -999
+	if v, ok := s.GetAttribute("forward_error"); ok {
+		if x, isInt := v.(int); isInt {
+			a.fe = x
+		}
+	}
+	if v, ok := s.GetAttribute("reverse_error"); ok {
+		if x, isInt := v.(int); isInt {
+			a.re = x
+		}
+	}
+	var xs []string
+	if s.HasAnnotation() {
+		for k, v := range s.Annotations() {
+			if c11PcrKeys[k] {
+				continue
+			}
+			switch x := v.(type) {
+			case int:
+				xs = append(xs, hx([]byte(k))+"=i"+strconv.Itoa(x))
+			case string:
+				xs = append(xs, hx([]byte(k))+"=s"+hx([]byte(x)))
+			default:
+				xs = append(xs, hx([]byte(k))+"=?")
+			}
+		}
+	}
+	sort.Strings(xs)
+	a.others = "-"
+	if len(xs) > 0 {
+		a.others = strings.Join(xs, ";")
+	}
+}
+
+func (a c11Amp) annotFields() string {
+	return fmt.Sprintf("%s/%d/%s/%d/%s/%s/%s", hx([]byte(a.fm)), a.fe, hx([]byte(a.rm)), a.re, hx([]byte(a.fp)), hx([]byte(a.rp)), a.others)
+}
+
 // annotation problems seen by c11Run / the cli reader since the last reset (forward_primer, reverse_primer, direction,
-// annotations inherited from the template)
+// annotations inherited from the template) — independent of the model: what the property / the documentation say
 var c11AnnotBad []string
 
 func c11CheckAnnot(s *obiseq.BioSequence, o c11Opt, tag int) {
@@ -401,8 +477,13 @@ func c11CheckAnnot(s *obiseq.BioSequence, o c11Opt, tag int) {
 	if v, _ := s.GetAttribute("direction"); v != "forward" && v != "reverse" {
 		bad("direction=%v", v)
 	}
-	if v, ok := s.GetAttribute("c11tag"); !ok || v != tag {
+	if v, ok := s.GetAttribute("c11tag"); tag%3 != 2 && (!ok || v != tag) {
 		bad("annotation of the template c11tag=%v, want %d", v, tag)
+	} else if tag%3 == 2 && ok {
+		bad("annotation c11tag=%v on an amplicon of a template without annotations", v)
+	}
+	if v, ok := s.GetAttribute("zz_note"); tag%3 == 1 && (!ok || v != "t"+strconv.Itoa(tag)) {
+		bad("annotation of the template zz_note=%v, want t%d", v, tag)
 	}
 	for _, k := range []string{"forward_error", "reverse_error"} {
 		if v, ok := s.GetAttribute(k); !ok {
@@ -425,7 +506,7 @@ func c11Run(o c11Opt, tpls [][]byte) [][]c11Amp {
 	batch := make(obiseq.BioSequenceSlice, len(tpls))
 	for i, t := range tpls {
 		batch[i] = obiseq.NewBioSequence("t"+strconv.Itoa(i), t, "")
-		batch[i].SetAttribute("c11tag", i)
+		c11SetTplAnnot(batch[i], i)
 	}
 	res := obiapat.PCRSlice(batch, o.options()...)
 	out := make([][]c11Amp, len(tpls))
@@ -439,22 +520,7 @@ func c11Run(o c11Opt, tpls [][]byte) [][]c11Amp {
 		from1, _ := strconv.Atoi(coord[:dots])
 		a := c11Amp{from: from1 - 1, idto: coord[dots+2:], amp: string(s.Sequence())}
 		c11CheckAnnot(s, o, k)
-		d, _ := s.GetAttribute("direction")
-		if d == "forward" {
-			a.dir = 'f'
-		} else if d == "reverse" {
-			a.dir = 'r'
-		} else {
-			a.dir = '?'
-		}
-		v, _ := s.GetAttribute("forward_match")
-		a.fm, _ = v.(string)
-		v, _ = s.GetAttribute("reverse_match")
-		a.rm, _ = v.(string)
-		v, _ = s.GetAttribute("forward_error")
-		a.fe, _ = v.(int)
-		v, _ = s.GetAttribute("reverse_error")
-		a.re, _ = v.(int)
+		c11ReadAnnot(s, &a)
 		out[k] = append(out[k], a)
 	}
 	return out
@@ -469,7 +535,7 @@ func c11Show(per [][]c11Amp) string {
 		}
 		xs := make([]string, len(l))
 		for j, a := range l {
-			xs[j] = fmt.Sprintf("%c/%d..%s/%s/%s/%d/%s/%d", a.dir, a.from+1, a.idto, hx([]byte(a.amp)), hx([]byte(a.fm)), a.fe, hx([]byte(a.rm)), a.re)
+			xs[j] = fmt.Sprintf("%c/%d..%s/%s/%s", a.dir, a.from+1, a.idto, hx([]byte(a.amp)), a.annotFields())
 		}
 		parts[i] = strings.Join(xs, ",")
 	}
@@ -832,10 +898,8 @@ func (c11) Exec(c string) (string, []Fail) {
 		if len(c11AnnotBad) > 0 {
 			fail("pcr.annot."+class, "annotations of the amplicons: %s", strings.Join(c11AnnotBad, " ; "))
 		}
-		if short && !bad {
-			// the C encoder reads 64 symbols of a circular sequence whatever its length: not modelled
-			return "unmodelled", fails
-		}
+		// (a circular template shorter than a primer used to be printed `unmodelled`: since fix c69892e the C encoder copies
+		// min(length, 64) symbols behind a circular sequence, which is what the model's seqData does; compared like the rest)
 		return res, fails
 
 	case f[0] == "frag" && len(f) == 12:
